@@ -26,6 +26,12 @@ def generate(seed, tier, prop):
         ks = [0, 1, 1, 2, 3]
     N = dcfg["N"]
     pos, neg = P.gen_batching(r, N)
+    if r.random() < 0.05:
+        # occasionally a dataset and batch sizes of realistic magnitude
+        N = dcfg["N"] = r.choice([33, 64, 65, 130, 257])
+        pos = r.choice([32, 64, 100, N])
+        neg = r.choice([None, None, 32, 50, pos])
+        epochs = min(epochs, 2)
     tc = {
         "epochs": epochs,
         "starting_epoch": 1,
